@@ -1,6 +1,6 @@
 """C04 - JOIN pairs each A record with exactly its key-equal B records.
 
-Space: 5 join kinds x 8 key lists (1-3 pairs over fields, NR/aNR, bNR; '=' / '==' and swapped sides alternate) x 10 downstream shapes
+Space: 5 join kinds x 8 key lists (1-3 pairs over fields, NR/aNR, bNR; '=' / '==' and swapped sides alternate) x 12 downstream shapes
 (projection, stars, WHERE on b, ORDER BY, GROUP BY/COUNT, bNR/NR, UNNEST, UPDATE) over all pairs of tables (A, B) from the prefix-closed
 trees of <= 2 (quick) / <= 3 (thorough) rows, with duplicate keys, unmatched keys and ragged rows (missing key fields). Oracle: RefQL nested-loop pairing.
 """
@@ -32,6 +32,9 @@ def space(tier, seed):
         ('sel', {'items': [F('a', 1), ('unnest', ('list', F('b', 1), F('a', 1)))]}),
         ('upd', {'assign': [(F('a', 2), F('b', 2))]}),
         ('upd', {'assign': [(F('a', 1), ('cat', F('a', 1), F('b', 1)))], 'where': ('cmp', '==', F('b', 1), ('lit', k))}),
+        # a WHERE that dereferences a b-field: it may only ever be evaluated on a matched pair (an unmatched record of an INNER JOIN is dropped / copied unchanged first)
+        ('upd', {'assign': [(F('a', 2), F('b', 2))], 'where': ('cmp', '>', ('len', F('b', 1)), ('int', 0)), 'inner_only': True}),
+        ('sel', {'items': [F('a', 1), ('bNR',)], 'where': ('cmp', '>', ('len', F('b', 1)), ('int', 0)), 'inner_only': True}),
     ]
     qs = []
     for jt in KINDS:
@@ -169,7 +172,7 @@ def main(tier, seed):
     shards += [{'tier': tier, 'seed': seed, 'lo': 0, 'hi': 0, 'registry': r + 1} for r in range(16)]
     res = core.run_shards('vf.checks.c04', shards)
     return core.finish(PID, tier, seed, res, t0,
-        rule='5 join kinds x 8 key lists x 10 downstream shapes x all (A, B) table pairs up to the row bound (5-row alphabets each: duplicate keys, unmatched keys, rows lacking a key field); '
+        rule='5 join kinds x 8 key lists x 12 downstream shapes x all (A, B) table pairs up to the row bound (5-row alphabets each: duplicate keys, unmatched keys, rows lacking a key field); '
              'every query also through rbql.query + ListTableRegistry with 7 join-table ids (letter case, dots) next to case-variant / prefix decoy tables placed before and after, over a sub-grid of the table pairs; '
              'states = (query, A, B) nodes, transitions = row-append edges in either table; non-trivial = some A record has >= 2 matches or none',
         assumptions=['RefQL nested-loop pairing in B order is the statement of JOIN', 'ORDER BY on b-fields only under join kinds that never produce None keys'],
